@@ -290,6 +290,7 @@ class Effects:
         self._extra: dict[str, list[FunctionInfo]] = {}
         self._sites: list[Site] | None = None
         self._inst_why: dict[int, tuple] = {}
+        self._cuts = 0  # number of times a recursion was cut by a cycle/depth guard (results computed meanwhile are partial)
         self.parse_reach = self.reachable([corpus.func(e) for e in PARSE_ENTRIES])
         self.build_reach = self.reachable([corpus.func(e) for e in BUILD_ENTRIES])
 
@@ -440,13 +441,15 @@ class Effects:
         if key in self._memo:
             return self._memo[key]
         if depth > 14:
+            self._cuts += 1
             return frozenset({Root("UNKNOWN", "too deep")})
+        cuts0 = self._cuts
         r = frozenset(self._classify(e, fi, depth, seen))
         if any(x.kind == "ENV" and not x.obj for x in r) and self._is_config_type(e, fi) == "CONFIG":
             # e.g. document.settings.env.myst_config: the build-wide config object
             r = frozenset(Root("CONFIG", f"{short(e, 50)}: the global MdParserConfig kept on the Sphinx env") if (x.kind == "ENV" and not x.obj) else x for x in r)
-        if not seen:
-            self._memo[key] = r
+        if not seen or self._cuts == cuts0:
+            self._memo[key] = r  # nothing below was cut short by the cycle guard: the result does not depend on `seen`
         return r
 
     def _is_config_type(self, e: ast.expr, fi: FunctionInfo) -> str | None:
@@ -610,6 +613,7 @@ class Effects:
                 out = set()
                 for t in fts:
                     if ("callret", t.fq) in seen:
+                        self._cuts += 1
                         continue
                     for n in walk_local(t.node, into_lambdas=False):
                         if isinstance(n, ast.Return) and n.value is not None:
@@ -656,6 +660,7 @@ class Effects:
         """Roots of every value stored to ``self.attr`` by the methods of the class and its relatives."""
         key = ("selfattr", cls_fq, attr)
         if key in seen or depth > 8:
+            self._cuts += 1
             return None
         if not seen and key in self._param:
             return self._param[key]
@@ -711,7 +716,9 @@ class Effects:
         if key in self._param:
             return self._param[key]
         if key in seen or depth > 10:
+            self._cuts += 1
             return frozenset()  # recursion through the call graph: contributes nothing new (least fixpoint)
+        cuts0 = self._cuts
         a = f.node.args
         ann = None
         for x in a.posonlyargs + a.args + a.kwonlyargs:
@@ -752,8 +759,10 @@ class Effects:
                     out.add(r)
             if not out and not seen:
                 out |= ann_roots or {Root("PARAM", f"{f.qualname}({name})")}
+            elif not out:
+                self._cuts += 1  # the top-level answer would add a PARAM marker here
         r = frozenset(out)
-        if not seen:
+        if not seen or self._cuts == cuts0:
             self._param[key] = r
         return r
 
